@@ -107,6 +107,10 @@ def pipeline_check(pid, tier, seed, extra_hook=None):
                 out.violation(finding_signature(profile, f), "variant: %s (case %s): %s vs %s" % (f["msg"], f["case"], f["expected"], f["observed"]),
                               {"profile": profile, "opts": opts, "grammar_text": f["grammar_text"], "grammar_text_ref": f["grammar_text_ref"],
                                "case": f["case"], "expected": f["expected"], "observed": f["observed"], "kind": "variant", "run_key": s["key"]})
+        if pid == "C19" and s.get("render_state_changed"):
+            rs = s["render_state_changed"]
+            out.violation("trace:process-state-changed:%s" % profile, "after a process ran traced parses the same PrettyParseError is rendered differently than before (tracing left process-wide state behind): %r vs %r" % (rs["before"][:80], rs["after"][:80]),
+                          {"profile": profile, "opts": opts, "before": rs["before"], "after": rs["after"], "kind": "trace_state"})
         if pid == "C13":
             for f in s.get("type_section_findings", []):
                 out.violation("types_differ:%s:%s" % (profile, hashlib.sha256(f["grammar_text"].encode()).hexdigest()[:10]), f["msg"],
